@@ -26,7 +26,7 @@ CONSTANTS Prods,        \* subset of {"ulc", "ntag", "ev1", "n203"}
           Variants,     \* passwords that differ only beyond the key prefix
           PFs,          \* protect_from arguments
           MaxOps, MaxAdv, MaxCut, MaxChal,
-          Defects, ImmModes, AdvKinds,
+          Defects, ImmModes, NakModes, AdvKinds,
           Ops           \* subset of {"auth", "protect", "lock", "ndef", "format"}
 
 DefectNames == {"ev1_no_cfgpage", "ulc_short_response", "fmt_defaults_unchecked"}
@@ -74,11 +74,12 @@ vars == <<tag, rd, pc, op, resp, orig, tamp, hist, nadv, nops, ncut, nchal, last
 Stored(t) == [key |-> t.key, auth0 |-> t.auth0, prot |-> t.prot, cfglck |-> t.cfglck]
 \* cc: bits of CC byte 3 ("b3" = 08h, "b7" = 80h, "lo" = 07h); misc: the configuration bits no docstring
 \* names (MIRROR, STRG_MOD_EN, NFC_CNT_EN, AUTHLIM, RFU) - "m0" as long as nobody changed them
-TagInit(prod, pg, key, auth0, rp, cfglck, slock, dlock, cc, fmt, tlv, imm) ==
+TagInit(prod, pg, key, auth0, rp, cfglck, slock, dlock, cc, fmt, tlv, tlv1, imm, nakb) ==
     [prod |-> prod, pg |-> pg, key |-> key, auth0 |-> auth0, prot |-> rp, cfglck |-> cfglck, misc |-> "m0",
      eff |-> [key |-> key, auth0 |-> auth0, prot |-> rp, cfglck |-> cfglck],
-     authd |-> FALSE, mute |-> FALSE, on |-> TRUE, imm |-> imm, sess |-> 0, ek |-> NoResp,
-     slock |-> slock, dlock |-> dlock, cc |-> cc, fmt |-> fmt, tlv |-> tlv, user |-> "orig"]
+     authd |-> FALSE, mute |-> FALSE, on |-> TRUE, imm |-> imm, nakb |-> nakb, sess |-> 0, ek |-> NoResp,
+     slock |-> slock, dlock |-> dlock, cc |-> cc, fmt |-> fmt, tlv |-> tlv, user |-> "orig",
+     tlv1 |-> tlv1]        \* the factory TLV area fits into page 4 (NTAG210/215/216: 03 00 FE 00)
 RdInit == [auth |-> FALSE]
 NoOp   == [name |-> "none", pw |-> NoPw, rp |-> FALSE, pf |-> 0, outer |-> "none", ra |-> 0, m2 |-> NoResp,
            misc |-> "m0", lck |-> FALSE, key0 |-> <<>>, user0 |-> "orig"]
@@ -92,13 +93,13 @@ InitWith(t) ==
 
 \* initial tags: factory state, or protected by an earlier protect("kA") from page 3 (with / without PROT),
 \* formatted / blank CC, TLV area intact / broken, NDEF read-only
-Init == \E prod \in Prods, imm \in ImmModes, protd \in BOOLEAN, rp \in BOOLEAN, fmt \in BOOLEAN, ro \in BOOLEAN,
-           tlv \in {"ok", "broken"} :
-          /\ (protd => HasAC(prod)) /\ (rp => protd) /\ (ro => fmt)
+Init == \E prod \in Prods, imm \in ImmModes, nakb \in NakModes, protd \in BOOLEAN, rp \in BOOLEAN, fmt \in BOOLEAN,
+           ro \in BOOLEAN, tlv \in {"ok", "broken"}, tlv1 \in BOOLEAN :
+          /\ (protd => HasAC(prod)) /\ (rp => protd) /\ (ro => fmt) /\ (tlv1 => (prod = "ntag" /\ tlv = "broken"))
           /\ InitWith(TagInit(prod, PgTable(prod),
                               KeyPages(prod, IF protd /\ "kA" \in KeyParts THEN <<"kA", "kA">> ELSE Factory),
                               IF protd THEN 3 ELSE NoAuth0(prod), rp, FALSE, FALSE, FALSE,
-                              IF ro THEN {"b3", "lo"} ELSE {}, fmt, tlv, imm))
+                              IF ro THEN {"b3", "lo"} ELSE {}, fmt, tlv, tlv1, imm, nakb))
 
 \* ---- the tag: access control ------------------------------------------------------------------------
 Pg(t, c) == t.pg[c]
@@ -118,12 +119,15 @@ Store(t, c, v) ==
       [] c = "cfg1"  -> [t EXCEPT !.prot = v.prot, !.cfglck = v.cfglck, !.misc = IF v.keep THEN @ ELSE "mX"]
       [] c = "a0"    -> [t EXCEPT !.auth0 = v.auth0]
       [] c = "a1"    -> [t EXCEPT !.prot = v.prot]
-      [] c \in {"u4", "u5"} -> [t EXCEPT !.user = "dflt", !.tlv = IF c = "u5" THEN "ok" ELSE @]
+      [] c \in {"u4", "u5"} -> [t EXCEPT !.user = "dflt", !.tlv = IF c = "u5" \/ t.tlv1 THEN "ok" ELSE @]
       [] OTHER       -> [t EXCEPT !.key[KeyIdx(c)] = v.part]
 \* CFGLCK is taken over at power-up only, whatever the product does with the rest
 Latched(t) == IF t.imm THEN [t EXCEPT !.eff = [Stored(t) EXCEPT !.cfglck = t.eff.cfglck]] ELSE t
 Activate(t) == [t EXCEPT !.mute = FALSE, !.authd = FALSE, !.sess = 0, !.ek = NoResp, !.eff = Stored(t)]
 Nak(t) == IF t.on THEN [t EXCEPT !.mute = TRUE, !.authd = FALSE, !.sess = 0] ELSE t
+\* a READ the tag refuses: a NAK byte makes Type2Tag.read sense the tag again before it raises; when the driver
+\* reports the NAK as "no answer" the command error is a timeout and the tag stays mute
+ReadNak(t) == IF ~Alive(t) THEN t ELSE IF t.nakb THEN Activate(t) ELSE Nak(t)
 
 \* what Type2Tag.NDEF + the vendor _read_capability_data override make of the tag (tt2_nxp.py:53-63, 323-332)
 CcReadable(t) == ReadOk(t, "cc")
@@ -133,7 +137,7 @@ NdefView(t, r) ==
     ELSE LET rd0 == "b7" \notin t.cc
              wr0 == "b3" \notin t.cc /\ "lo" \notin t.cc
              over == r.auth /\ HasAC(t.prod)
-             rd1 == rd0 \/ (over /\ t.cc \in {{"b3", "b7"}, {"b7"}})          \* high nibble = 8
+             rd1 == rd0 \/ over                                               \* high nibble = 8 (the only other value)
              wr1 == wr0 \/ (over /\ "b3" \in t.cc /\ "lo" \notin t.cc /\ ~t.slock)   \* low nibble = 8, lock bytes 00 00
          IN IF rd1 THEN (IF wr1 THEN "rw" ELSE "r") ELSE (IF wr1 THEN "w" ELSE "-")
 \* a READ of the TLV area that the tag answers with NAK re-activates it (Type2Tag.read senses again)
@@ -254,12 +258,11 @@ WriteAt(p) ==
       [] p = "u_w0" -> W("a0", [auth0 |-> Clamp("ulc", op.pf)], "u_w1", TCE)
       [] p = "u_w1" -> W("a1", [prot |-> op.rp], AfterKey, TCE)
          \* protect_from <= 3 on a formatted tag: CC byte 3 |= 08h / 88h                                       (:170-174, :431-435)
-      [] p = "p_wcc" -> W("cc", CcBits(TRUE, op.rp, FALSE), "p_sense", TCE)
+         \* (the reader ORs into the byte it has just read)
+      [] p = "p_wcc" -> W("cc", CcBits(TRUE, op.rp \/ "b7" \in tag.cc, "lo" \in tag.cc), "p_sense", TCE)
          \* _protect_with_lockbits: CC byte 3 = 0Fh, static lock bits, dynamic lock bits, CFGLCK; errors -> False (:131-141, :388-403, :290-302)
       [] p = "l_wcc" -> W("cc", CcBits(TRUE, FALSE, TRUE), "l_ws", "False")
-         \* `if self._cfgpage > 16` follows the static lock bits: on an Ultralight EV1 the AttributeError leaves protect() here
-      [] p = "l_ws" -> W("slock", [all |-> TRUE],
-                         IF tag.prod = "ev1" /\ "ev1_no_cfgpage" \in Defects THEN "attr" ELSE AfterStatic, "False")
+      [] p = "l_ws" -> W("slock", [all |-> TRUE], AfterStatic, "False")
       [] p = "l_wd" -> W("dlock", [all |-> TRUE], IF HasCfg(tag.prod) THEN "l_rc" ELSE "done", "False")
       [] p = "l_wc" -> W("cfg1", [prot |-> op.rp, cfglck |-> TRUE, keep |-> TRUE], "done", "False")
          \* NTAG2xx._format: "no management data, writing factory defaults"                                    (:304-309, :503-508 ...)
@@ -285,9 +288,12 @@ Write ==
     /\ LET w == WriteAt(pc) IN
          IF WriteOk(tag, w.c)
          THEN /\ tag' = Latched(Store(tag, w.c, w.v)) /\ wlog' = Append(wlog, w.c)
-              /\ IF w.nx \in {"done", "attr"}
-                 THEN rd' = rd /\ Finish(IF w.nx = "done" THEN "True" ELSE "AttributeError", tag', FALSE, "-")
-                 ELSE Goto(w.nx) /\ rd' = rd
+              /\ rd' = rd
+              /\ \/ IF w.nx = "done" THEN Finish("True", tag', FALSE, "-") ELSE Goto(w.nx)
+                 \* `if self._cfgpage > 16` follows the static lock bits: on an Ultralight EV1 the AttributeError
+                 \* leaves protect() here (the code as it is)
+                 \/ /\ pc = "l_ws" /\ tag.prod = "ev1" /\ "ev1_no_cfgpage" \in Defects
+                    /\ Finish("AttributeError", tag', FALSE, "-")
               /\ prot' = IF IsKeyCls(w.c) THEN [prot EXCEPT !.set = FALSE] ELSE prot
          ELSE /\ tag' = Nak(tag) /\ wlog' = wlog /\ rd' = rd /\ AuthFinish(w.fail, tag', FALSE)
     /\ UNCHANGED <<op, tamp, hist, nadv, ncut, nchal>>
@@ -298,7 +304,7 @@ Read ==
          IF ReadOk(tag, r.c)
          THEN /\ op' = IF pc = "p_rc" THEN [op EXCEPT !.lck = tag.cfglck] ELSE IF pc = "l_rc" THEN [op EXCEPT !.rp = tag.prot] ELSE op
               /\ tag' = tag /\ Proceed(r.nx, tag)
-         ELSE /\ tag' = IF Alive(tag) THEN Activate(tag) ELSE tag
+         ELSE /\ tag' = ReadNak(tag)
               /\ op' = op /\ rd' = rd /\ AuthFinish(r.fail, tag', FALSE)
     /\ UNCHANGED <<tamp, hist, nadv, ncut, nchal, wlog>>
 
@@ -306,10 +312,10 @@ Read ==
 StartProtect(pw, rp, pf) ==
     /\ Idle /\ HasAC(tag.prod) /\ "protect" \in Ops
     /\ Begin([NoOp EXCEPT !.name = "protect", !.pw = pw, !.rp = rp, !.pf = pf, !.outer = "protect"]) /\ UNCHANGED rd
-    /\ IF Short(pw) THEN FinishO(op', "ValueError", tag, FALSE, "-")
-       ELSE IF tag.prod = "ev1" /\ "ev1_no_cfgpage" \in Defects
-            THEN FinishO(op', "AttributeError", tag, FALSE, "-")          \* self._cfgpage is never set on MF0UL11/21
-            ELSE Goto(IF tag.prod = "ulc" THEN "u_k1" ELSE "p_rc")
+    /\ \/ Short(pw) /\ FinishO(op', "ValueError", tag, FALSE, "-")
+       \/ /\ ~Short(pw) /\ tag.prod = "ev1" /\ "ev1_no_cfgpage" \in Defects
+          /\ FinishO(op', "AttributeError", tag, FALSE, "-")          \* self._cfgpage is never set on MF0UL11/21
+       \/ ~Short(pw) /\ Goto(IF tag.prod = "ulc" THEN "u_k1" ELSE "p_rc")
 \* self._target = self.clf.sense(self.target); return self.authenticate(key) if self.target else False
 PSense == /\ pc = "p_sense"
           /\ IF tag.on THEN /\ tag' = Activate(tag) /\ Goto(IF tag.prod = "ulc" THEN "u_a1" ELSE "n_pwd") /\ UNCHANGED <<rd, prot>>
@@ -325,7 +331,7 @@ Ndef(view) ==
     /\ Idle /\ "ndef" \in Ops
     /\ view = NdefView(tag, rd)
     /\ op' = [NoOp EXCEPT !.name = "ndef", !.outer = "ndef", !.key0 = tag.eff.key, !.user0 = tag.user]
-    /\ tag' = IF NdefNaks(tag) THEN Activate(tag) ELSE tag
+    /\ tag' = IF NdefNaks(tag) THEN ReadNak(tag) ELSE tag
     /\ pc' = "idle" /\ nops' = nops + 1
     /\ last' = [NoLast EXCEPT !.op = "ndef", !.prod = tag.prod, !.res = "View", !.view = view, !.key = tag.eff.key, !.user0 = tag.user]
     /\ wlog' = <<>>
@@ -340,21 +346,21 @@ StartFormat ==
     /\ op' = [NoOp EXCEPT !.name = "format", !.outer = "format", !.key0 = tag.eff.key, !.user0 = tag.user]
     /\ tamp' = FALSE /\ wlog' = <<>> /\ rd' = rd
     /\ LET v == NdefView(tag, rd)
-           t1 == IF NdefNaks(tag) THEN Activate(tag) ELSE tag IN
+           t1 == IF NdefNaks(tag) THEN ReadNak(tag) ELSE tag IN
          /\ tag' = t1
-         /\ IF v # "none" THEN Goto("f_base")
-            ELSE IF "fmt_defaults_unchecked" \in Defects \/ CcAllowsFormat(t1, rd)
-                 THEN Goto("f_w4")
-                 ELSE /\ pc' = "idle" /\ resp' = NoResp /\ orig' = NoResp /\ nops' = nops + 1
-                      /\ last' = [NoLast EXCEPT !.op = "format", !.prod = tag.prod, !.res = "False", !.key = tag.eff.key,
-                                                !.user0 = tag.user]
+         /\ \/ v # "none" /\ Goto("f_base")
+            \/ v = "none" /\ ("fmt_defaults_unchecked" \in Defects \/ CcAllowsFormat(t1, rd)) /\ Goto("f_w4")
+            \/ v = "none" /\ ~CcAllowsFormat(t1, rd) /\ Goto("f_no")
     /\ UNCHANGED <<hist, nadv, ncut, nchal, prot>>
 \* Type2Tag._format: `if self.ndef and self.ndef.is_writeable` ... True, else False (its writes are C03's base part)
 FBase(out) == /\ pc = "f_base" /\ rd' = rd /\ UNCHANGED <<op, tamp, hist, nadv, ncut, nchal, wlog>>
               /\ LET v == NdefView(tag, rd)
-                     t1 == IF NdefNaks(tag) THEN Activate(tag) ELSE tag IN
+                     t1 == IF NdefNaks(tag) THEN ReadNak(tag) ELSE tag IN
                    /\ tag' = t1 /\ out = (IF v \in {"rw", "w"} THEN "True" ELSE "False")
                    /\ AuthFinish(out, t1, FALSE)
+\* (after the repair) no NDEF capability container that grants write access: nothing is written
+FRefuse(out) == /\ pc = "f_no" /\ out = "False" /\ AuthFinish("False", tag, FALSE)
+                /\ UNCHANGED <<tag, rd, op, tamp, hist, nadv, ncut, nchal, wlog>>
 
 \* ---- power cut between two commands; activation between two operations -------------------------------------------
 Cut == /\ pc # "idle" /\ ncut < MaxCut /\ tag.on
@@ -376,7 +382,7 @@ AdvReplay(h) == AdvOk("replay") /\ h \in hist /\ h # resp /\ h.k = resp.k /\ Adv
 
 Outcomes == {"cont", "True", "False", "TagCommandError", "ValueError", "IndexError", "AttributeError"}
 Views    == {"none", "rw", "r", "w", "-"}
-Check(out) == NChk(out) \/ UChk1(out) \/ UChk2(out) \/ FBase(out)
+Check(out) == NChk(out) \/ UChk1(out) \/ UChk2(out) \/ FBase(out) \/ FRefuse(out)
 Command == NPwd \/ UAuth1 \/ UAuth2 \/ Write \/ Read \/ PSense
 
 Next ==
@@ -446,7 +452,7 @@ OneWay == [][/\ (tag.slock => tag'.slock) /\ (tag.dlock => tag'.dlock) /\ tag.cc
 
 TypeOK == /\ pc \in {"idle", "n_pwd", "n_chk", "u_a1", "u_c1", "u_a2", "u_c2", "p_rc", "p_w0", "p_w1", "p_w2", "p_w3",
                      "u_k1", "u_k2", "u_k3", "u_k4", "u_w0", "u_w1", "p_rcc", "p_wcc", "p_sense",
-                     "l_rcc", "l_wcc", "l_ws", "l_wd", "l_rc", "l_wc", "f_w4", "f_w5", "f_base"}
+                     "l_rcc", "l_wcc", "l_ws", "l_wd", "l_rc", "l_wc", "f_no", "f_w4", "f_w5", "f_base"}
           /\ nadv \in 0..MaxAdv /\ nops \in 0..MaxOps /\ ncut \in 0..MaxCut
           /\ tag.authd => (tag.on /\ ~tag.mute)
 =============================================================================
